@@ -1,13 +1,25 @@
 """C05 — retry budgets count attempts and elapsed time correctly."""
 from __future__ import annotations
 
-from .. import policy
-from ..engine import monitors, suite
+from .. import policy, policy_tree
+from ..engine import c05_fork, monitors, suite
 from ..runner import Env, Outcome
 
 THEOREMS = ["C05_source_shape", "C05_attempt_budget", "C05_non_retryable_once", "C05_delay_budget", "C05_retry_requeue",
             "C05_failure_report", "C05_retry_number", "C05_first_attempt", "C05_wait_replay_is_the_suspended_attempt",
-            "C05_wait_replay_keeps_attempts", "C05_failure_after_wait_counts_on", "C05_unrepaired_wait_replay_restarts_count"]
+            "C05_wait_replay_keeps_attempts", "C05_failure_after_wait_counts_on", "C05_unrepaired_wait_replay_restarts_count",
+            # composed policies of any nesting depth, every clock
+            "C05_executions_least", "C05_attempt_cap_tree", "C05_attempt_floor_tree", "C05_attempt_budget_tree", "C05_stop_tree_run",
+            "C05_delay_budget_run", "C05_budget_monotone", "C05_attempt_threshold",
+            # every reachable state of the runner, every schedule
+            "C05_accounting_init", "C05_accounting_init_resumed", "C05_accounting_invariant", "C05_retry_records_wellformed",
+            "C05_budget_never_exceeded", "C05_reported_attempts_exact", "C05_no_policy_single_attempt", "C05_delay_budget_reachable",
+            "C05_step_failed_event_exact", "C05_retry_info_reachable", "C05_accounting_source_shape",
+            # one failed execution, one successor (re-run in place or retry, never both): proved for the reducer, refuted for the one before the repair
+            "C05_failed_execution_one_successor", "C05_one_successor_source_shape", "C05_refuted_failed_execution_one_successor_unrepaired",
+            "C05_failed_execution_one_successor_partial", "C05_failure_after_scheduled_rerun_skipped",
+            "C05_fork_run_exceeds_budget_unrepaired", "C05_fork_run_within_budget",
+            "C05_retry_numbers_consecutive", "C05_reported_attempts_consecutive"]
 LEAN_TARGETS = ["WfProps.C05"]
 EXPLANATION = (
     "Policy layer (bodies translated from retry_policy.py on every run): stop_after_attempt(n) => exactly max(n,1) "
@@ -18,12 +30,34 @@ EXPLANATION = (
     "invocation that suspends in wait_for_event is replayed with the attempt record it had (same retry_number, "
     "first_attempt_at, last exception) - the unrepaired replay restarted at 0 (kept as a refuted variant). "
     "Tie: policy correspondence (exact rationals) + reducer/runner correspondence with the policy's decisions as "
-    "oracle. Search: executions per lineage vs budget, retry_info numbers/exceptions, reported attempts and elapsed "
+    "oracle. For EVERY composed policy the executions of an always-failing invocation are the least failure number at which "
+    "next() refuses; for stop trees of any nesting the attempt limits cap them on every clock (stop_any = least operand, "
+    "stop_all = greatest), the tree's lower bound holds from below, equal bounds give exactly max(n,1); attempt/delay trees are "
+    "monotone. Runner LTS, every schedule from a fresh or resumed start (clock assumption: failures stamped on the runner's clock): "
+    "every attempt record anywhere (queue, in progress, waiter, tick buffer, mailbox, timer heap) with retry number k != 0 carries "
+    "first-attempt time <= last-failure time <= now, the exception, and was GRANTED by the step's policy at exactly (elapsed, k, "
+    "exception); hence no invocation ever runs beyond an attempt cap, retries under a delay limit were granted while elapsed < d, "
+    "a step without policy runs once, every WorkflowFailedEvent / StepFailedEvent reports attempts = k+1 >= 1 and elapsed >= 0 and "
+    "is issued only when the policy refused at exactly these numbers (exactly max(n,1) for stop_after_attempt trees), and "
+    "retry_info() of every reachable invocation reports the record (elapsed = now - first_attempt_at on a retry, 0 on the first "
+    "attempt; retry_number = 0 iff no previous exception). Source shape: every place the four accounting fields are written, "
+    "the failure-count / elapsed expressions, both clock sources and the body of retry_info() are re-extracted "
+    "(GenRetryAcct). Tie additions: nested stop/retry trees (operators and named combinators mixed, depth <= 4) and next() over "
+    "them against the driver; the trees' cap/lo bounds (from the driver) against the real retry loop on random clocks; the real "
+    "InternalContext.retry_info() on arbitrary records and clock readings against Policy.retryInfo. One failed execution has ONE "
+    "successor (a re-run on a refreshed collect_events snapshot, or a retry, never both) on every result list in which nothing is "
+    "collected after the failure (what the step wrapper returns): proved for the reducer, refuted for the reducer before repair "
+    "fix-C05x (the failure of an execution already scheduled to run again is now skipped), with the whole-run consequence (retry 1 "
+    "delivered twice under stop_after_attempt(2)); retry numbers are never skipped (a record with number k has granted retries 1..k "
+    "behind it). Search: executions per lineage vs budget, retry_info numbers/exceptions, reported attempts and elapsed "
     "vs virtual time actually elapsed, stop_after_delay against really-elapsed time; on waiting steps: retry_number = "
     "failed executions of the invocation so far across suspensions, reported attempts count failures before the wait."
 )
 ASSUMPTIONS = suite.ENGINE_ASSUMPTIONS + [
     "first_attempt_at (adapter.get_now) and failed_at (time.time in the step wrapper) are one clock: true on BasicRuntime since fix 1b4aba5 and on the DBOS adapter (epoch seconds); the harness virtualises both",
+    "runner-level accounting theorems (AcctInv): schedules are admissible (AcctSched) - a finishing worker stamps its failure with the runner's clock (the clock assumption above, both sources pinned by GenRetryAcct), clock readings are positive (epoch seconds; `first_attempt_at or now` treats 0 as unset), other parties put accounted (in practice fresh) attempt records into the mailbox, no step writes a forged WorkflowFailedEvent to the stream",
+    "C05_failed_execution_one_successor: result lists in which no AddCollectedEvent follows a StepWorkerFailed (the step wrapper appends the failure last: GenRetryAcct.wrapperAppendsAfterFailure = []); a background task of a step that calls collect_events after the body raised is outside it",
+    "C05.oracle abstracts the delay rounding of the integral-second runner model (any rounding function); budgets do not depend on it",
 ]
 
 
@@ -34,9 +68,16 @@ def run(env: Env) -> Outcome:
     policy.correspondence(env, out, env.budget(3000, 60000))
     policy.budget_stream(env, out, env.budget(600, 12000))
     policy.units_stream(env, out, env.budget(150, 3000))
+    # nested combinator trees, the theorems' attempt bounds against the real retry loop, Context.retry_info()
+    policy_tree.tree_correspondence(env, out, env.budget(1500, 20000))
+    policy_tree.bounds_stream(env, out, env.budget(400, 5000))
+    policy_tree.retry_info_correspondence(env, out, env.budget(300, 4000))
     suite.direct_corr(env, out, env.budget(2000, 40000))
-    suite.live_runs(env, out, env.budget(200, 4000), [monitors.mon_c05], extra_specs=suite.load_corpus("C05"))
-    suite.live_runs(env, out, env.budget(300, 6000), [monitors.mon_c05], gen_kwargs={"family": "retry"})
+    # + one failed execution has one successor (re-run in place OR retry, c05_fork.mon_fork); the corpus holds the regression case
+    suite.live_runs(env, out, env.budget(200, 4000), [c05_fork.mon_fork, monitors.mon_c05], extra_specs=suite.load_corpus("C05"))
+    suite.live_runs(env, out, env.budget(300, 6000), [c05_fork.mon_fork, monitors.mon_c05], gen_kwargs={"family": "retry"})
+    # collecting steps with retry policies that raise while their collection is incomplete (stale snapshots + failures in one result list)
+    suite.live_runs(env, out, env.budget(60, 600), [c05_fork.mon_fork, monitors.mon_c05], gen_kwargs={"family": "fanin", "raise_incomplete": True})
     # retried invocations that suspend in wait_for_event (before / after / around the wait), also under a catch_error handler
     suite.live_runs(env, out, env.budget(120, 2400), [monitors.mon_c05], gen_kwargs={"family": "wait_retry"})
     return out
